@@ -617,9 +617,14 @@
 		global.get $__heap_top
 		i32.ge_s
 		if
-			;; $pages = ($block_size+WASM_PAGE_SIZE-1) / WASM_PAGE_SIZE)
+			;; 只扩容不足的部分(堆顶以下剩余的空间仍然可用)
+			;; $pages = ($__heap_ptr + $block_size - $__heap_top + WASM_PAGE_SIZE) / WASM_PAGE_SIZE
+			global.get $__heap_ptr
 			local.get $block_size
-			i32.const 65535 ;; WASM_PAGE_SIZE-1
+			i32.add
+			global.get $__heap_top
+			i32.sub
+			i32.const 65536 ;; WASM_PAGE_SIZE
 			i32.add
 			i32.const 65536 ;; WASM_PAGE_SIZE
 			i32.div_s
